@@ -204,3 +204,34 @@ PROPS["C15"] = dict(
     ],
     uncovered=["content of the 5000 generated ENTRIES vs. the published PS3.6 table", "keyword lookup (by_name), tag constants, SOP class / UID dictionaries"],
 )
+
+# ----------------------------------------------------------------------- C07
+_W = ("cp /repo/Cargo.lock /verif/witness/Cargo.lock && CARGO_TARGET_DIR=/verif/build/witness cargo run --offline -q "
+      "--manifest-path /verif/witness/Cargo.toml --bin %s 2>&1 | grep -v '^thread\\|^note\\|panicked\\|^ ' | tail -16")
+PROPS["C07"] = dict(
+    level="proof",
+    units=[
+        V("C07.stateful_decoder", "c07_stateful_decoder.vrs",
+          "StatefulDecoder: every value reader (all VRs, via the three dispatchers read_value / read_value_preserved / "
+          "read_value_bytes), read_to, read_to_vec, skip_bytes, read_u32(_to_vec), decode_header, decode_item_header: on "
+          "success the reported position and the bytes consumed from the source advance by exactly the same amount, which "
+          "for values is exactly the declared length (for every u32 length, no bound)",
+          expected_verified=49, witness=dict(cmd=_W % "c07_positions")),
+        V("C07.sanitize", "c07_sanitize.vrs",
+          "DataSetReader::sanitize_length and LazyDataSetReader::sanitize_length == the three strategies of the statement "
+          "(Accept: same, NextEven: +1, Fail: None; even/undefined untouched), Length::{is_defined,is_undefined}, Length + i32 "
+          "never overflows",
+          expected_verified=11, witness=dict(cmd=_W % "c07_sanitize")),
+    ],
+    assumptions=[
+        "Read::read_exact / BasicDecode::decode_*_into / decode_tag consume exactly the bytes they are documented to read (ghost counter); "
+        "DecodeFrom::decode_header consumes the bytes_read it reports (proved for the three real codecs in C03/C08)",
+        "io::copy(take(n)) consumes at most n bytes and returns the count (std assumed)",
+        "text-parsing iterator chains (split/map/collect) and validate_* are replaced by opaque callees: parsed content is not part of C07",
+        "closures mutating self.position (`.map(|..| {self.position += bytes_read})`, `.inspect(|_| self.position += 8)`) are replaced by shims with that meaning",
+        "precondition room(position, len): position + len fits u64",
+        "determine_vr_based_on_pixel_representation / character-set update do not touch the source (not verified)",
+        "64-bit usize",
+    ],
+    uncovered=["DataSetReader / LazyDataSetReader token loops (how sanitize_length's result is used; defined-length item end detection)"],
+)
